@@ -643,6 +643,17 @@ pub fn large_docs() -> Vec<String> {
         v.push(t.clone());
         v.push(t.trim_end_matches('\n').to_string());
     }
+    // one single TOKEN of 64 KiB and more (a length kept in 16 bits wraps there; after seeded
+    // change C01-r8m1): value, continuation line, comment line, whitespace run, malformed line,
+    // each followed by more text so that a shifted or dropped tail shows
+    for n in [65_535usize, 65_536, 65_537, 70_000, 131_072] {
+        let x = "x".repeat(n);
+        v.push(format!("A: {}\nB: c\n\nC: d\n", x));
+        v.push(format!("A: b\n {}\nB: \u{e9}\n", x));
+        v.push(format!("#{}\nA: b\n# \u{e9}\nB: c", x));
+        v.push(format!("A:{}b\nB: c\n", " ".repeat(n)));
+        v.push(format!("A: b\n{}\nB: c\n", x));
+    }
     v
 }
 
